@@ -517,7 +517,7 @@ impl Property for C14 {
         "C14"
     }
     fn rule(&self) -> &'static str {
-        "case = (stack kind, capacity 1..=40, history of <=150 ops decoded from a proptest byte vector); model = Vec + capacity compared after every op (result, len, full contents, drop ledger). non-trivial = the stack reached its maximal fill at least once AND (value stack: a pop hit a stack emptied by pop_n/clear_until | bounded stack: a push was rejected and a pop hit the empty stack); distinct by hash of the decoded history"
+        "case = (stack kind, capacity 1..=40, history of <=150 ops decoded from a proptest byte vector); model = Vec + capacity compared after every op (result, len, full contents, drop ledger); set indices are absolute or relative to the current height (at it, one above it, the top), a set at the height must succeed exactly when push on a twin stack with the same contents does and return nil as the old value. non-trivial = the stack reached its maximal fill at least once AND (value stack: a pop hit a stack emptied by pop_n/clear_until | bounded stack: a push was rejected and a pop hit the empty stack); distinct by hash of the decoded history"
     }
     fn assumptions(&self) -> Vec<String> {
         vec![
